@@ -179,7 +179,7 @@ end HSet
 
 abbrev HSetS := HSet Nat
 
-/-- Hash of a value as the Rust type hashes it. `kind`: 1/2/4/8 = unsigned
+/-- Hash of a value as the Rust type hashes it. `kind`: 1/2/4/8/16 = unsigned
     integer of that many bytes; 32 = a 32-byte array; (`write_uN`, native-endian); 0 = the harness's
     weak-hash type (`write_u8(v & 1)`). -/
 def hashOf (kind : Nat) (v : Nat) : Nat :=
